@@ -429,7 +429,7 @@ def build(cx, fe, tier, info, only=None):
         'empty-shell removal are not tracked as dirty (a full write follows)',
         'C05: h5py exact storage, closed world; int(str(x)) == x; a bound and '
         'its proposal state survive write/read and update/read (C09: proved '
-        'for Union and the basic classes, bounded for NautilusBound/NeuralBound)',
+        'for every bound class; the emulator inside a NeuralBound is assumed)',
         'C05: equal continuation state K at a batch boundary gives a '
         'bit-identical continuation: determinism argument (C11), not '
         'machine-checked',
